@@ -1100,6 +1100,9 @@ class DomainMapping(CanBehaveLikeAVariable[T], ABC):
         if self._id_ in sources:
             yield sources
             return
+        # The truthiness of the mapped value only matters when this expression stands as a condition; as an operand,
+        # argument or selected expression its value is passed on whatever it is.
+        is_condition = self is self._conditions_root_ or isinstance(self._parent_, LogicalOperator)
         child_val = self._child_._evaluate__(sources, yield_when_false=self._yield_when_false_)
         for child_v in child_val:
             for v in self._apply_mapping_(child_v[self._child_._id_]):
@@ -1108,7 +1111,7 @@ class DomainMapping(CanBehaveLikeAVariable[T], ABC):
                     self._is_false_ = False
                 else:
                     self._is_false_ = True
-                if self._yield_when_false_ or not self._is_false_:
+                if self._yield_when_false_ or not self._is_false_ or not is_condition:
                     values[self._id_] = v
                     yield values
 
